@@ -678,6 +678,9 @@ def griffe_view(ctx, table, hw_line_single, split, load=None):
         rec = load.get("recorder")
         if rec is not None:
             rec.seen.clear()
+    if load is not None and load.get("inplace") and base.exists():
+        import shutil
+        shutil.rmtree(base)             # edit in place: the next version takes the very paths of the previous one
     base.mkdir(parents=True, exist_ok=True)
     via, how = via_parts(split)
     if imp == "xpkg":
@@ -875,6 +878,33 @@ def rand_diamond(rng):
         d4 = leaf()
         t.append({"dec": d4, "body": body(d4 is not None), "hw": None, "bases": [3], "style": rng.randrange(30030)})
     return t
+
+
+def rand_mi(rng):
+    """richer multiple inheritance: 5-6 classes, 1-3 bases each in RANDOM order (so a base is sometimes listed again explicitly after an
+    unrelated base although an earlier base already derives from it: `R(D, S, T)` with `D(T)`, `S(A)`), kept when CPython can linearise it"""
+    for _ in range(30):
+        n = rng.choice([5, 5, 6])
+        state = {"dflt": False, "p_default": rng.choice([0.0, 0.5, 1.0])}
+        t = []
+        # half of the tables start from two unrelated chains T <- D, A <- S joined by a class that lists a base of the first chain,
+        # the second chain, and then the first chain again (its root, or another subclass of its root)
+        shape = None
+        if rng.random() < 0.5:
+            shape = rng.choice([[[], [], [0], [1], [2, 3, 0], None], [[], [], [0], [1], [0], [2, 3, 4]], [[], [], [0], [1], [3, 2, 1], None],
+                                [[], [], [0], [1, 0], [2, 3, 0], None], [[], [], [0], [1], [0], [3, 2, 4]]])
+            n = 6 if shape[5] is not None or rng.random() < 0.4 else 5
+        for i in range(n):
+            k = min(i, rng.choice([1, 1, 2, 2, 3, 3]))
+            bases = rng.sample(range(i), k) if i else []
+            if shape is not None and i < len(shape) and shape[i] is not None:
+                bases = list(shape[i])
+            dec = (None, rng.choice([None, None, True])) if rng.random() < 0.8 else None
+            body = [s for s in rand_body(rng, state, dec is not None, True) if not (s[0] == "attr" and s[2] == "kwonly")][:2]
+            t.append({"dec": dec, "body": body, "hw": None, "bases": bases, "style": rng.randrange(30030), "post": None})
+        if all(len(set(c["bases"])) == len(c["bases"]) for c in t) and cpython_mros(t) is not None:
+            return t
+    return rand_diamond(rng)
 
 
 def systematic_decorators():
@@ -1281,6 +1311,8 @@ def check_tables(ctx, tables, stream, use_model=True, mirror=False, loads=None, 
             g_mem, g_label, g_mro, g_pres, _seen = gv[i]
             if g_mro != mros[i]:
                 ctx.tie_failure("correspondence", "precondition: Class.mro() vs CPython __mro__ (C07)", {"griffe": g_mro, "cpython": mros[i], "class": i}, case)
+                # the order in which fields, overrides and constructors are inherited is the MRO: a different one is a failing input of this property too
+                ctx.property_failure(case, {"class": i, "Class.mro()": g_mro, "cls.__mro__ (classes of the module)": mros[i]})
             # hand-written __init__ is the user's, untouched
             if c["hw"] is not None:
                 if g_mem[0] != "handwritten" or g_mem[1] != ["self", f"q{i}"] or not g_mem[2]:
@@ -1637,6 +1669,8 @@ def check_histories(ctx, n, use_model=True, mirror=False):
         for v in range(nver):
             t = first if v == 0 else (evolve(ctx.rng, first) if ctx.rng.random() < 0.6 else rand_table(ctx.rng, maxn=3, quiet=True))
             split = rand_split(ctx.rng, t) if (len(t) >= 2 and ctx.rng.random() < 0.3) else None
+            if inplace:
+                split = None            # one module file, rewritten
             tables.append(t)
             # half of the histories EDIT THE FILES IN PLACE (same paths, the first class statement on the same line) and load again,
             # the others put each version in a directory of its own
@@ -1703,6 +1737,7 @@ def explore(ctx):
     check_tables(ctx, sd, "systematic decorator pairs")
     check_tables(ctx, sf, "systematic field forms")
     check_tables(ctx, [rand_diamond(ctx.rng) for _ in range(ctx.budget(250, 1500))], "random diamonds")
+    check_tables(ctx, [rand_mi(ctx.rng) for _ in range(ctx.budget(120, 700))], "random multiple inheritance (5-6 classes, up to 3 bases in any order)")
     check_rebinding(ctx, ctx.budget(80, 400))
     check_tables(ctx, [rand_table(ctx.rng, maxn=4, quiet=True, initvar=0.3) for _ in range(ctx.budget(200, 1200))],
                  "cross-package: one loader, packages loaded in dependency order", layout="xpkg")
@@ -1737,6 +1772,7 @@ def search(ctx):
         check_tables(ctx, [rand_diamond(ctx.rng) for _ in range(60)], "search: diamonds", use_model=False, mirror=True)
         check_tables(ctx, [rand_table(ctx.rng, maxn=4, quiet=True, initvar=0.3) for _ in range(60)], "search: cross-package", use_model=False, mirror=True, layout="xpkg")
         check_rebinding(ctx, 40, use_model=False)
+        check_tables(ctx, [rand_mi(ctx.rng) for _ in range(60)], "search: multiple inheritance", use_model=False, mirror=True)
         if ctx.prop_failures or ctx.elapsed() > 500:
             return
 
